@@ -279,6 +279,7 @@ func checkC14(c *core.Ctx, r *core.Report) {
 
 	// ---------------------------------------------------------------- (2b) every victim is examined
 	c14EveryVictimExamined(c, r, []*ssa.Function{dsd, dmd})
+	c14SameVictimsForEveryStep(c, r, dsd, isDelKey)
 
 	// ---------------------------------------------------------------- (3)
 	rmList := metricsRemovalHost(c)
@@ -897,4 +898,93 @@ func c14EveryVictimExamined(c *core.Ctx, r *core.Report, roots []*ssa.Function) 
 		}
 	}
 	r.Floor("GUARD", "loops over a batch of victims in the delete cone", nLoops, 3)
+}
+
+// c14SameVictimsForEveryStep — clause (2c).  The delete order (remote objects, local files, in-memory metadata,
+// empty-PQ files, segmeta.json) is one pass over one set of victims.  In DeleteSegmentData every step that removes
+// something durable or visible — RemoveSegBasedirs, the in-memory deletion, RemoveSegMetas — works on the same
+// collection: the collection the function was given, or one local collection derived from it; a step's argument that
+// is itself built by a loop (the set of base directories) is traced to the collection that loop ranges over.  When one
+// step works on the full set and the others on a filtered one, a segment keeps its metadata while its files are gone
+// (or the reverse), and search still targets it.
+func c14SameVictimsForEveryStep(c *core.Ctx, r *core.Report, dsd *ssa.Function, isDelKey callPred) {
+	removeBase := c.Obj(pkgWriter, "RemoveSegBasedirs")
+	removeMetas := c.Obj(pkgWriter, "RemoveSegMetas")
+	loops := core.Loops(dsd)
+	// root of a collection value: the parameter, or the local map / slice it is; a local collection filled inside a
+	// loop is traced to what that loop ranges over
+	var root func(v ssa.Value, depth int) ssa.Value
+	rangedIn := func(l *core.Loop) ssa.Value {
+		for _, in := range l.Header.Instrs {
+			if nx, ok := in.(*ssa.Next); ok {
+				if rg, ok := nx.Iter.(*ssa.Range); ok {
+					return rg.X
+				}
+			}
+		}
+		return nil
+	}
+	root = func(v ssa.Value, depth int) ssa.Value {
+		if depth > 4 || v == nil {
+			return v
+		}
+		switch x := v.(type) {
+		case *ssa.Parameter:
+			return x
+		case *ssa.ChangeType:
+			return root(x.X, depth+1)
+		case *ssa.MakeMap:
+			// filled in a loop over another collection?
+			if refs := x.Referrers(); refs != nil {
+				for _, u := range *refs {
+					if mu, ok := u.(*ssa.MapUpdate); ok && mu.Map == ssa.Value(x) {
+						if l := core.InnermostLoop(loops, mu.Block()); l != nil {
+							// a projection (another element type: the set of base directories of the victims) stands
+							// for the collection it was made from; a map of the same type is a selection of its own
+							if src := rangedIn(l); src != nil && !types.Identical(src.Type(), x.Type()) {
+								return root(src, depth+1)
+							}
+						}
+					}
+				}
+			}
+			return x
+		}
+		return v
+	}
+	type step struct {
+		name string
+		at   ssa.Instruction
+		root ssa.Value
+	}
+	var steps []step
+	for _, ci := range core.CallsIn(dsd) {
+		switch {
+		case core.IsCallTo(ci, removeBase) && len(ci.Common().Args) > 0:
+			steps = append(steps, step{"RemoveSegBasedirs", ci, root(ci.Common().Args[0], 0)})
+		case core.IsCallTo(ci, removeMetas) && len(ci.Common().Args) > 0:
+			steps = append(steps, step{"RemoveSegMetas", ci, root(ci.Common().Args[0], 0)})
+		case isDelKey(ci):
+			// called with the collection, or per element inside a loop over it
+			var rt ssa.Value
+			if l := core.InnermostLoop(loops, ci.Block()); l != nil {
+				rt = root(rangedIn(l), 0)
+			} else if len(ci.Common().Args) > 0 {
+				rt = root(ci.Common().Args[0], 0)
+			}
+			steps = append(steps, step{"in-memory deletion", ci, rt})
+		}
+	}
+	construct := shortFn(dsd) + ":every-delete-step-works-on-the-same-victims"
+	if len(steps) < 3 {
+		r.Undecided("DEPENDS", construct, c.Pos(dsd.Pos()), fmt.Sprintf("expected the three delete steps (local files, in-memory metadata, segmeta.json), found %d", len(steps)))
+		return
+	}
+	for _, s := range steps[1:] {
+		if s.root == nil || steps[0].root == nil || s.root != steps[0].root {
+			r.Violation("DEPENDS", construct, c.Pos(s.at.Pos()), fmt.Sprintf("%s and %s do not work on the same collection of victims (one of them on a filtered copy, the other on the full set): a segment left out of one step keeps its metadata while its files are deleted, or loses its metadata while its files stay", steps[0].name, s.name))
+			return
+		}
+	}
+	r.OK("DEPENDS", construct, c.Pos(steps[0].at.Pos()), fmt.Sprintf("%d steps, all on one collection", len(steps)))
 }
